@@ -19,6 +19,8 @@ import CueVerif.Proofs.QuoteMain
 import CueVerif.Proofs.QuoteMulti
 import CueVerif.Proofs.NumLit
 import CueVerif.Proofs.Ident
+import CueVerif.Proofs.TokenFile
+import CueVerif.Proofs.ScanComma
 namespace CueVerif.C09
 open CueVerif CueVerif.Quote
 
@@ -161,5 +163,174 @@ theorem C09_ident_agree (lU dU : Nat → Bool) (hL1 : lU 0xFFFD = false) (hL2 : 
 example : Ident.scanIdentClean (· == 233) (· == 0x663) [95, 35, 97] = true ∧
     Ident.isValidIdent (· == 233) (· == 0x663) [233] = true ∧
     Ident.scanIdentClean (· == 233) (· == 0x663) [35, 49] = false := by decide
+
+/-! ### the position table of `token.File` (extension round, session 3)
+
+Model: `Model/TokenFile.lean` (cue/token/position.go: `NewFile`, `AddLine`, `fixOffset`, `Pos`,
+`Offset`, `Add`, `searchInts`, `unpack`, `Position`).  `GoodPosition` (Spec/TokenFile.lean) is the
+property's demand: the reported offset is the clamped offset and lies in `[0, size]`, the line
+names an existing line (1-based), column ≥ 1, the line starts at `offset - (column-1)`, and the
+offset lies before the start of the next line. -/
+
+/-- Whatever sequence of `AddLine` calls is made on a new file (increasing or not, negative,
+beyond the size, duplicates — the invalid ones are ignored), the line table stays
+well-formed: it starts with 0, is strictly increasing, and every later line starts inside
+the file. -/
+theorem C09_linetable_wf (size : Int) (hs : 0 ≤ size) (offs : List Int) :
+    TokenFile.WF (TokenFile.addLines (TokenFile.newFile size) offs) :=
+  TokenFile.addLines_wf offs _ (TokenFile.newFile_wf size hs)
+
+/-- For EVERY such table and EVERY integer offset (negative and past-EOF offsets are clamped
+by `File.Pos`), with any relative-position / comma / scanned bits: `File.Position(File.Pos(o))`
+does not panic (the hand-inlined binary search stays in range and terminates) and reports a
+`GoodPosition` for the clamped offset: 1 ≤ line ≤ #lines, column ≥ 1, start of that line ≤
+offset < start of the next line. -/
+theorem C09_position_within_table (size : Int) (hs : 0 ≤ size) (offs : List Int) (o rel : Int)
+    (hr0 : 0 ≤ rel) (hr1 : rel < 64) :
+    let f := TokenFile.addLines (TokenFile.newFile size) offs
+    ∃ p, TokenFile.position f (TokenFile.pos f o rel) = .ok p ∧
+      TokenFile.GoodPosition f (TokenFile.fixOffset f o) p :=
+  TokenFile.position_good _ (C09_linetable_wf size hs offs) o rel hr0 hr1
+
+-- non-vacuity: file of size 10 with AddLine 3, 5, 5 (ignored), 4 (ignored), 12 (ignored), 9;
+-- offset 4 is line 2 column 2; offset 11 is clamped to EOF = line 4 column 2
+example : TokenFile.position (TokenFile.addLines (TokenFile.newFile 10) [3, 5, 5, 4, 12, -1, 9])
+    (TokenFile.pos (TokenFile.addLines (TokenFile.newFile 10) [3, 5, 5, 4, 12, -1, 9]) 4 2) = .ok ⟨4, 2, 2⟩ ∧
+    TokenFile.position (TokenFile.addLines (TokenFile.newFile 10) [3, 5, 5, 4, 12, -1, 9])
+    (TokenFile.pos (TokenFile.addLines (TokenFile.newFile 10) [3, 5, 5, 4, 12, -1, 9]) 11 35) = .ok ⟨10, 4, 2⟩ := by
+  decide
+
+/-- The same for any well-formed table, however built (`SetLinesForContent`, …). -/
+theorem C09_position_good (f : TokenFile.File) (hwf : TokenFile.WF f) (o rel : Int)
+    (hr0 : 0 ≤ rel) (hr1 : rel < 64) :
+    ∃ p, TokenFile.position f (TokenFile.pos f o rel) = .ok p ∧
+      TokenFile.GoodPosition f (TokenFile.fixOffset f o) p :=
+  TokenFile.position_good f hwf o rel hr0 hr1
+
+/-- Round trip: `Offset(Pos(o))` is the clamped offset — `o` itself for 0 ≤ o ≤ size — for any
+flag bits below `1 << relShift`; and the invariant documented at `File.Pos`,
+`f.Pos(f.Offset(p)) == p`, holds for every `p` made by `f.Pos`. -/
+theorem C09_pos_offset_roundtrip (f : TokenFile.File) (hs : 0 ≤ f.size) (o rel : Int)
+    (hr0 : 0 ≤ rel) (hr1 : rel < 64) :
+    TokenFile.offset f (TokenFile.pos f o rel) = TokenFile.fixOffset f o ∧
+    (0 ≤ o → o ≤ f.size → TokenFile.offset f (TokenFile.pos f o rel) = o) ∧
+    0 ≤ TokenFile.offset f (TokenFile.pos f o rel) ∧ TokenFile.offset f (TokenFile.pos f o rel) ≤ f.size ∧
+    TokenFile.pos f (TokenFile.offset f (TokenFile.pos f o rel)) rel = TokenFile.pos f o rel := by
+  have h := TokenFile.offset_pos f hs o rel hr0 hr1
+  have hr := TokenFile.fixOffset_range f hs o
+  exact ⟨h, fun h0 h1 => by rw [h, TokenFile.fixOffset_id f o h0 h1], by omega, by omega,
+    TokenFile.pos_offset f hs o rel hr0 hr1⟩
+
+example : TokenFile.offset (TokenFile.newFile 10) (TokenFile.pos (TokenFile.newFile 10) 7 63) = 7 ∧
+    TokenFile.offset (TokenFile.newFile 10) (TokenFile.pos (TokenFile.newFile 10) (-3) 0) = 0 := by decide
+
+/-- `Pos.Add(n)` moves the offset by `n` and `Offset` clamps the result: every position
+observable through `Offset()` lies within the input, whatever was added (this is why a raw
+overshoot past EOF cannot be seen through the public accessors, cf. notes/C09.md). -/
+theorem C09_pos_add_clamped (f : TokenFile.File) (hs : 0 ≤ f.size) (p n : Int) :
+    TokenFile.offset f (TokenFile.add p n) = TokenFile.fixOffset f (TokenFile.index p - 1 + n) ∧
+    0 ≤ TokenFile.offset f (TokenFile.add p n) ∧ TokenFile.offset f (TokenFile.add p n) ≤ f.size := by
+  have h := TokenFile.offset_add f p n
+  have hr := TokenFile.fixOffset_range f hs (TokenFile.index p - 1 + n)
+  exact ⟨h, by omega, by omega⟩
+
+/-- Line/column are monotone in the offset (lexicographically): positions compare like their
+offsets. -/
+theorem C09_position_monotone (f : TokenFile.File) (hwf : TokenFile.WF f) (o1 o2 : Int)
+    (p1 p2 : TokenFile.Position) (h : o1 ≤ o2) (g1 : TokenFile.GoodPosition f o1 p1)
+    (g2 : TokenFile.GoodPosition f o2 p2) :
+    p1.line < p2.line ∨ (p1.line = p2.line ∧ p1.column ≤ p2.column) :=
+  TokenFile.good_monotone f hwf o1 o2 p1 p2 h g1 g2
+
+/-- `searchInts` on any strictly increasing table: never out of range, never out of fuel, and
+the result is (number of entries ≤ x) − 1. -/
+theorem C09_searchInts_total (a : List Int) (x : Int) (hs : a.Pairwise (· < ·)) :
+    ∃ r : Nat, TokenFile.searchInts a x = .ok ((r : Int) - 1) ∧ r ≤ a.length ∧
+      (∀ k v, k < r → a[k]? = some v → v ≤ x) ∧ (∀ k v, r ≤ k → a[k]? = some v → x < v) :=
+  TokenFile.searchInts_spec a x hs
+
+example : TokenFile.searchInts [0, 3, 5, 9] 4 = .ok 1 ∧ TokenFile.searchInts [0, 3, 5, 9] (-1) = .ok (-1) := by
+  decide
+
+/-! ### the scanner as a total function (extension round, session 3)
+
+Model: `Model/Scan.lean` — `scanTok` is `Scanner.Scan` (all token classes, automatic comma
+insertion, strings with interpolation and `minLineWS` bookkeeping, attributes with their nested
+`Scan` calls, comments) on the state `St` = (remaining input, `insertEOL`, quote stack); `n` is
+`len(src)`; `mu st = 2·|remaining| + [insertEOL]`.  `GoodStep n st t st'` (Spec/Scan.lean):
+entry offset ≤ `t.off` ≤ `t.fin` = new offset, the remaining input never grows, `mu` never
+grows and strictly decreases unless the token is EOF. -/
+
+/-- (a) Totality and progress: from EVERY state, with fuel above `mu` (2·|input|+2 always
+suffices), `Scan` returns a token — the recursion through comments, the `return s.Scan()`
+after a newline and the nested `Scan` calls of attribute scanning all terminate — and the call
+either returns EOF or strictly decreases `mu`: it consumed at least one byte, or it returned
+the pending automatic comma without consuming (at most once in a row). -/
+theorem C09_scan_total (M : Scan.Mode) (U : Scan.Uni) (n fuel : Nat) (st : Scan.St)
+    (h : 2 * st.cur.length + 1 < fuel) :
+    ∃ t st', Scan.scanTok M U n fuel st = some (t, st') ∧ Scan.GoodStep n st t st' :=
+  Scan.scanTok_ok M U n fuel st (by have := (Scan.mu_bounds st).2; omega)
+
+/-- (b) Offsets: for a state inside a source of length `n`, the token offset and the scanner
+offset after the call satisfy entry offset ≤ `t.off` ≤ `t.fin` ≤ n, and `t.fin` is exactly the
+new position — so along a token stream offsets never decrease, each token starts at or after
+the end of its predecessor, and everything lies within `[0, len]`. -/
+theorem C09_scan_offsets (M : Scan.Mode) (U : Scan.Uni) (n fuel : Nat) (st : Scan.St) (t : Scan.Tok)
+    (st' : Scan.St) (hn : st.cur.length ≤ n) (hf : 2 * st.cur.length + 1 < fuel)
+    (h : Scan.scanTok M U n fuel st = some (t, st')) :
+    n - st.cur.length ≤ t.off ∧ t.off ≤ t.fin ∧ t.fin ≤ n ∧ t.fin + st'.cur.length = n ∧
+      st'.cur.length ≤ st.cur.length := by
+  obtain ⟨t0, st0, h0, hg⟩ := C09_scan_total M U n fuel st hf
+  rw [h] at h0
+  injection h0 with h0
+  injection h0 with h1 h2
+  subst h1 h2
+  obtain ⟨g1, g2, g3, g4, _, _⟩ := hg
+  exact ⟨g2, g3, by omega, by omega, g1⟩
+
+-- non-vacuity (a sample, not the property): `a //c` + newline, scanning comments: IDENT, then
+-- the automatic comma WITHOUT consuming (offset 2 = the comment's), then the COMMENT at 2
+example : (Scan.scan ⟨true, false⟩ ⟨fun _ => false, fun _ => false⟩ [97, 32, 47, 47, 99, 10]).1.map
+    (fun t => (t.kind, t.off, t.fin)) =
+    [(.IDENT, 0, 1), (.COMMA, 2, 2), (.COMMENT, 2, 5), (.EOF, 6, 6)] := by decide
+
+/-- (c) Comma insertion vs the language specification (doc/ref/spec.md §Commas: identifier,
+keyword, bottom, number, string, interpolation, `)`, `]`, `}`, `?`, `...`; regenerated and
+tied by `Bridge.C09.scan_spec_commas`): the full statement "after every token, `insertEOL` is
+set exactly for the kinds the spec lists" … -/
+def C09_comma_rule_stmt : Prop :=
+  ∀ (M : Scan.Mode) (U : Scan.Uni) (n fuel : Nat) (st : Scan.St) (t : Scan.Tok) (st' : Scan.St),
+    M.dontInsertCommas = false → Scan.scanTok M U n fuel st = some (t, st') →
+      st'.insertEOL = Scan.specComma t.kind
+
+/-- … is FALSE on model and code alike: after `;` (SEMICOLON — a token the spec does not have)
+and after an attribute the scanner also inserts a comma (witness `;`; replayed on the
+implementation by the harness, class comma-after-token-not-in-spec). -/
+theorem C09_comma_rule_false : ¬ C09_comma_rule_stmt := by
+  intro h
+  have := h ⟨false, false⟩ ⟨fun _ => false, fun _ => false⟩ 1 5 ⟨[59], false, []⟩
+    ⟨.SEMICOLON, 0, 1, [], false⟩ ⟨[], true, []⟩ rfl (by rfl)
+  exact absurd this (by decide)
+
+-- the attribute witness
+example : (Scan.scan ⟨false, false⟩ ⟨fun _ => false, fun _ => false⟩ [64, 97, 40, 41, 10, 98]).1.map
+    (fun t => t.kind) = [.ATTRIBUTE, .COMMA, .IDENT, .COMMA, .EOF] := by decide
+
+/-- … and TRUE for every token other than SEMICOLON, ATTRIBUTE and ILLEGAL (which keeps the
+previous value): `insertEOL` after the token is exactly the spec's list. -/
+theorem C09_comma_rule_partial (M : Scan.Mode) (U : Scan.Uni) (n fuel : Nat) (st : Scan.St)
+    (t : Scan.Tok) (st' : Scan.St) (hM : M.dontInsertCommas = false)
+    (h : Scan.scanTok M U n fuel st = some (t, st')) (h0 : t.kind ≠ .ILLEGAL)
+    (h1 : t.kind ≠ .SEMICOLON) (h2 : t.kind ≠ .ATTRIBUTE) :
+    st'.insertEOL = Scan.specComma t.kind := by
+  rw [Scan.scanTok_comma M U n hM fuel st t st' h h0]
+  exact Scan.insertsComma_spec t.kind h1 h2
+
+/-- … and in general the code's rule is the spec's list plus SEMICOLON and ATTRIBUTE. -/
+theorem C09_comma_rule_code (M : Scan.Mode) (U : Scan.Uni) (n fuel : Nat) (st : Scan.St)
+    (t : Scan.Tok) (st' : Scan.St) (hM : M.dontInsertCommas = false)
+    (h : Scan.scanTok M U n fuel st = some (t, st')) (h0 : t.kind ≠ .ILLEGAL) :
+    st'.insertEOL = Scan.insertsComma t.kind :=
+  Scan.scanTok_comma M U n hM fuel st t st' h h0
 
 end CueVerif.C09
